@@ -109,7 +109,7 @@ func c09(tier string) int {
 	for _, store := range stores {
 		us := uni.New(ev.Seed(), 5, []int{0})
 		gs := wh.NewCPGen(us)
-		alpha := wh.AlphaOpts{MaxN: 5, AllOlds: true, Shapes: []string{"plain", "ext", "sizepad", "sizepad-ext", "looseb64", "junk1"}}
+		alpha := wh.AlphaOpts{MaxN: 5, AllOlds: true, Shapes: []string{"plain", "ext", "sizepad", "sizepad-ext", "looseb64", "junk1", "oddroot"}}
 		st, tr := wh.Search(wh.SearchOpts{U: us, Gen: gs, Store: store, Log: la, Extra: []wh.LogCfg{lb}, Alpha: alpha, Reps: 3, Cold: true,
 			Workers: workers(), OnStep: c09Monitor(run), Run: run})
 		totalStates += st
